@@ -1,8 +1,14 @@
 import Driver.Proto
 import MesonModel.Crash.Model
+import MesonModel.Crash.Buffered
 /-
 driver commands of area `crash` (C09)
 
+  bufsize <sizes>|<beffects>               byte-level model (Crash/Buffered.lean) on a logged effect prefix: for each state
+                                           file `a` (absent) or `<lo>-<hi>`: its size when nothing leaves the buffers
+                                           before flush/close, and when every write goes through at once
+             <sizes>    `;`-separated id:nbytes of the files that exist beforehand
+             <beffects> as <effects>, with w:p:nbytes and cl:p
   crash <cmd>|<init>|<effects>|<k>|<mode>|<mf>   state after a kill at effect k (mode b = before, t = inside) + recovery verdict
   scan  <cmd>|<init>|<effects>|<mf>         number of crash points and the unacceptable ones as k:mode:verdict
 
@@ -90,12 +96,48 @@ def parseCmd (s : String) : Option Cmd :=
 def showVerdict : Verdict Gen → String
   | .usable (.coredata g) => "usable:cd:" ++ showGen g
   | .usable (.cmdline g) => "usable:cl:" ++ showGen g
-  | .usable (.cmdlineOptions g) => "usable:clo:" ++ showGen g
   | .usable .fresh => "usable:fresh"
   | .rejectedCleanly => "rejected"
   | .internalError => "internal"
 
 def statePaths : List Path := [0, 1, 2, 3, 4, 5, 6, 7, 8]
+
+def parseBufEffect (item : String) : Option (Buf.Eff Unit) :=
+  match item.splitOn ":" with
+  | ["ow", p] => p.toNat?.map .openW
+  | ["oa", p] => p.toNat?.map .openA
+  | ["w", p, n] => do
+    let p ← p.toNat?
+    let n ← n.toNat?
+    pure (.write p (List.replicate n ()))
+  | ["fl", p] => p.toNat?.map .flush
+  | ["fs", p] => p.toNat?.map .fsync
+  | ["cl", p] => p.toNat?.map .close
+  | ["rp", s, d] => do
+    let s ← s.toNat?
+    let d ← d.toNat?
+    pure (.replace s d)
+  | ["cp", s, d] => do
+    let s ← s.toNat?
+    let d ← d.toNat?
+    pure (.copy s d)
+  | ["ul", p] => p.toNat?.map .unlink
+  | ["rd", p] => p.toNat?.map .fsync
+  | ["mk", p] => p.toNat?.map .fsync
+  | ["ot", p] => p.toNat?.map .fsync
+  | _ => none
+
+def parseSizes (f : String) : Option (List (Path × Nat)) :=
+  if f.trimAscii.isEmpty then some [] else
+  (f.splitOn ";").mapM (fun item =>
+    match item.splitOn ":" with
+    | [p, n] => do
+      let p ← p.toNat?
+      let n ← n.toNat?
+      pure (p, n)
+    | _ => none)
+
+def bufFilePaths : List Path := [0, 1, 2, 3, 4, 5, 6, 8]
 
 def handle (cmd : String) (fs : List String) : String :=
   match cmd, fs with
@@ -107,6 +149,20 @@ def handle (cmd : String) (fs : List String) : String :=
       showVerdict v ++ "|" ++ ",".intercalate (statePaths.map (fun p => showSt (s p)))
         ++ "|" ++ boolStr (acceptable c (mf == "1") v) ++ "|" ++ boolStr (needsReconfigure s)
     | _, _, _, _ => "bad-args"
+  | "bufsize", [sizes, effs] =>
+    let items := if effs.trimAscii.isEmpty then some [] else (effs.splitOn ";").mapM parseBufEffect
+    match parseSizes sizes, items with
+    | some sz, some t =>
+      let s0 : Buf.St Unit :=
+        ⟨fun p => (sz.lookup p).map (fun n => List.replicate n ()), fun _ => none⟩
+      let lo := (Buf.runS s0 t).file
+      let hi := (Buf.runS s0 (Buf.writeThrough t)).file
+      ",".intercalate (bufFilePaths.map (fun p =>
+        match lo p, hi p with
+        | some a, some b => toString a.length ++ "-" ++ toString b.length
+        | none, none => "a"
+        | _, _ => "?"))
+    | _, _ => "bad-args"
   | "scan", [c, ini, effs, mf] =>
     match parseCmd c, parseInit ini, parseEffects effs with
     | some c, some ini, some effs =>
